@@ -1,7 +1,8 @@
 """Execution of Robust.tla scenarios / random episodes on the real TrimmedMean and Krum.
 
-A matrix is given as two integer matrices (JA, JB) and stands for (JA + 2^sexp * JB) * 2^e; every
-entry is "pure" (JA[i][j] == 0 or JB[i][j] == 0), hence exactly representable in float32.
+A matrix is given as two integer matrices (JA, JB) plus a common offset (oa, ob) and stands for
+((JA + oa) + 2^sexp * (JB + ob)) * 2^e; it is built in exact integer arithmetic and must be exactly
+representable in the requested dtype (checked; anything else is a machinery failure).
 All expected values come from TLC (scenario export) or are checked by TLC (trace validation); the
 only arithmetic done here is building tensors, exact Fractions of TLC's rationals, and the derived
 rounding allowances.
@@ -17,15 +18,19 @@ EPS = {"float32": 2.0 ** -23, "float64": 2.0 ** -52}
 DT = {"float32": torch.float32, "float64": torch.float64}
 
 
-def build(ja, jb, sexp: int, e: int, dtype: str) -> torch.Tensor:
-    A = torch.tensor(ja, dtype=torch.float64)
-    B = torch.tensor(jb, dtype=torch.float64)
-    if bool(((A != 0) & (B != 0)).any()):
-        raise ValueError("entry with both a level-0 and a level-1 part")
-    J = (A + B * (2.0 ** sexp)) * (2.0 ** e)
+def build(ja, jb, sexp: int, e: int, dtype: str, off=(0, 0)) -> torch.Tensor:
+    A = torch.tensor(ja, dtype=torch.int64) + int(off[0])
+    B = torch.tensor(jb, dtype=torch.int64) + int(off[1])
+    if int(B.abs().max()) >= 2 ** 20 or int(A.abs().max()) >= 2 ** 60:
+        raise ValueError("matrix entries out of the exact integer range")
+    V = A + B * (2 ** sexp)
+    Vd = V.to(torch.float64)
+    if not torch.equal(Vd.to(torch.int64), V):
+        raise ValueError("matrix not exactly representable in float64")
+    J = Vd * (2.0 ** e)
     Jd = J.to(DT[dtype])
-    if not torch.equal(Jd.to(torch.float64), J):
-        raise ValueError("matrix not exactly representable")
+    if not (torch.equal(Jd.to(torch.float64), J) and bool(torch.isfinite(Jd).all())):
+        raise ValueError(f"matrix not exactly representable in {dtype}")
     return Jd
 
 
@@ -33,9 +38,10 @@ def frac(q) -> Fraction:
     return Fraction(int(q[0]), int(q[1]))
 
 
-def exact_value(rec: dict, sexp: int, e: int) -> Fraction:
-    """TLC's two-level rational [a |-> n/d, b |-> n/d]  ->  (a + b * 2^sexp) * 2^e, exactly."""
-    return (frac(rec["a"]) + frac(rec["b"]) * Fraction(2) ** sexp) * Fraction(2) ** e
+def exact_value(rec: dict, sexp: int, e: int, off=(0, 0)) -> Fraction:
+    """TLC's two-level rational [a |-> n/d, b |-> n/d], shifted by the common offset
+    ->  ((a + oa) + (b + ob) * 2^sexp) * 2^e, exactly."""
+    return ((frac(rec["a"]) + off[0]) + (frac(rec["b"]) + off[1]) * Fraction(2) ** sexp) * Fraction(2) ** e
 
 
 def call(factory, J):
@@ -114,13 +120,20 @@ def krum_observe(f: int, k: int, J: torch.Tensor):
     return rec
 
 
-def krum_clause(obs: dict, k: int, allowed: list[list[int]]) -> str:
-    """Same clauses, same order as KrumClause of TraceRobust.tla (admissible case)."""
+def krum_clause(obs: dict, k: int, case: dict) -> str:
+    """Same clauses, same order as KrumClause of TraceRobust.tla (admissible case).
+    case["mode"] == "enum": `allowed` lists every allowed selection; "bounds" (many rows): `allowed`
+    holds the unique selection of a decided case, otherwise must <= selection <= may is demanded."""
     if obs["exc"] != "none":
         return "raised_although_enough_rows"
     if not obs["wok"] or len(set(obs["sel"])) != k or len(obs["sel"]) != k:
         return "not_exactly_k_distinct_rows_with_weight_1_over_k"
-    if sorted(obs["sel"]) not in [sorted(a) for a in allowed]:
+    sel = set(obs["sel"])
+    if case.get("mode", "enum") == "bounds" and not case["allowed"]:
+        good = set(case["must"]) <= sel <= set(case["may"])
+    else:
+        good = sorted(sel) in [sorted(a) for a in case["allowed"]]
+    if not good:
         return "selected_rows_do_not_have_the_smallest_scores"
     if not obs["avgok"]:
         return "output_is_not_the_plain_average_of_the_selected_rows"
